@@ -546,7 +546,210 @@ def rule_e(chk: Check, eng: Engine) -> None:
                         path=cfg.describe_path(p) if p else [], keyparts="padding-unguarded")
 
 
+# ------------------------------------------------------------------ R02-f
+
+
+class Lin:
+    """a*X + b*Y + c*Z + k over exact rationals (X, Y, Z = mean fitness of the hard / repetition /
+    soft class, each known to lie in [0, 1])."""
+
+    def __init__(self, coef=None, k=0):
+        from fractions import Fraction
+
+        self.coef = {a: Fraction(b) for a, b in (coef or {}).items() if b != 0}
+        self.k = Fraction(k)
+
+    def __add__(self, o):
+        o = o if isinstance(o, Lin) else Lin(k=o)
+        c = dict(self.coef)
+        for a, b in o.coef.items():
+            c[a] = c.get(a, 0) + b
+        return Lin(c, self.k + o.k)
+
+    __radd__ = __add__
+
+    def __mul__(self, o):
+        if isinstance(o, Lin):
+            if not o.coef:
+                o = o.k
+            elif not self.coef:
+                return o * self.k
+            else:
+                raise ValueError("non-linear")
+        return Lin({a: b * o for a, b in self.coef.items()}, self.k * o)
+
+    __rmul__ = __mul__
+
+    def __truediv__(self, o):
+        if isinstance(o, Lin):
+            if o.coef:
+                raise ValueError("division by a symbolic value")
+            o = o.k
+        return Lin({a: b / o for a, b in self.coef.items()}, self.k / o)
+
+    def __repr__(self):
+        return " + ".join([f"{b}*{a}" for a, b in sorted(self.coef.items())] + ([str(self.k)] if self.k or not self.coef else []))
+
+
+def lin_eval(fn: FuncInfo, h: int, r: int, s: int):
+    """Evaluate Evaluator.evaluate_individual on the path selected by the concrete counts (h, r, s), with
+    the class means symbolic.  Returns the Lin value compared with the threshold at the first guard."""
+    env: dict = {}
+    lens = {"_hard_constraints": h, "_repetition_bounds_constraints": r, "_soft_constraints": s}
+    found: list = []
+
+    class Found(Exception):
+        pass
+
+    def ev(e):
+        if isinstance(e, ast.Constant) and isinstance(e.value, (int, float)) and not isinstance(e.value, bool):
+            from fractions import Fraction
+
+            return Lin(k=Fraction(e.value).limit_denominator(10**9))
+        if isinstance(e, ast.Name):
+            return env.get(e.id)
+        if isinstance(e, ast.Call) and isinstance(e.func, ast.Name) and e.func.id == "len" and self_attr(e.args[0]) in lens:
+            return Lin(k=lens[self_attr(e.args[0])])
+        if isinstance(e, ast.Call) and isinstance(e.func, ast.Name) and e.func.id in ("max", "min", "float", "int", "abs") and e.args:
+            vals = [ev(a) for a in e.args]
+            if all(isinstance(v, Lin) and not v.coef for v in vals):
+                ks = [v.k for v in vals]
+                return Lin(k={"max": max, "min": min, "abs": lambda *x: abs(x[0]), "float": lambda *x: x[0], "int": lambda *x: int(x[0])}[e.func.id](*ks))
+            return None
+        if isinstance(e, ast.BinOp):
+            a, b = ev(e.left), ev(e.right)
+            if a is None or b is None:
+                return None
+            if isinstance(e.op, ast.Add):
+                return a + b
+            if isinstance(e.op, ast.Mult):
+                return a * b
+            if isinstance(e.op, ast.Div):
+                return a / b
+            return None
+        return None
+
+    def truth(t):
+        if isinstance(t, ast.BoolOp):
+            vs = [truth(v) for v in t.values]
+            if isinstance(t.op, ast.And):
+                return False if any(v is False for v in vs) else (True if all(v is True for v in vs) else None)
+            return True if any(v is True for v in vs) else (False if all(v is False for v in vs) else None)
+        if isinstance(t, ast.Compare) and len(t.ops) == 1:
+            if isinstance(t.comparators[0], ast.Attribute) and t.comparators[0].attr in THRESHOLD_ATTRS:
+                found.append(ev(t.left))
+                raise Found()
+            a, b = ev(t.left), ev(t.comparators[0])
+            if isinstance(a, Lin) and isinstance(b, Lin) and not a.coef and not b.coef:
+                op = t.ops[0]
+                return {ast.Gt: a.k > b.k, ast.GtE: a.k >= b.k, ast.Lt: a.k < b.k, ast.LtE: a.k <= b.k, ast.Eq: a.k == b.k, ast.NotEq: a.k != b.k}.get(type(op))
+            if isinstance(t.ops[0], (ast.In, ast.NotIn)):
+                return isinstance(t.ops[0], ast.NotIn)
+            return None
+        if isinstance(t, ast.Name):
+            v = env.get(t.id)
+            return v if isinstance(v, bool) else None
+        return None
+
+    def block(stmts):
+        for st in stmts:
+            if isinstance(st, ast.Assign) and isinstance(st.value, ast.Call) and isinstance(st.value.func, ast.Attribute) and self_attr(st.value.func) is not None:
+                name = st.value.func.attr
+                sym = {"evaluate_hard_constraints": ("X", h), "evaluate_repetition_bounds_constraints": ("Y", r), "evaluate_soft_constraints": ("Z", s)}.get(name)
+                tgt = st.targets[0]
+                first = tgt.elts[0] if isinstance(tgt, ast.Tuple) else tgt
+                if sym and isinstance(first, ast.Name):
+                    env[first.id] = Lin({sym[0]: 1}) if sym[1] > 0 else Lin(k=1)
+                continue
+            if isinstance(st, ast.Assign) and len(st.targets) == 1 and isinstance(st.targets[0], ast.Name):
+                if isinstance(st.value, (ast.Compare, ast.BoolOp)):
+                    # fully_solved_so_far = fitness == 1.0 ... : unknown in general; soft constraints are evaluated only when true
+                    env[st.targets[0].id] = True if s > 0 else None
+                else:
+                    v = ev(st.value)
+                    env[st.targets[0].id] = v
+                continue
+            if isinstance(st, ast.AugAssign) and isinstance(st.target, ast.Name):
+                cur, v = env.get(st.target.id), ev(st.value)
+                if isinstance(cur, Lin) and isinstance(v, Lin):
+                    env[st.target.id] = cur + v if isinstance(st.op, ast.Add) else cur * v if isinstance(st.op, ast.Mult) else cur / v if isinstance(st.op, ast.Div) else None
+                continue
+            if isinstance(st, ast.If):
+                d = truth(st.test)
+                if d is True:
+                    block(st.body)
+                elif d is False:
+                    block(st.orelse)
+                else:
+                    # undecided branch: only acceptable if it assigns no tracked value
+                    for n in ast.walk(st):
+                        if isinstance(n, (ast.Assign, ast.AugAssign)):
+                            for t in (n.targets if isinstance(n, ast.Assign) else [n.target]):
+                                if isinstance(t, ast.Name) and isinstance(env.get(t.id), Lin):
+                                    raise ValueError(f"undecided branch `{short(st.test)}` assigns {t.id}")
+                continue
+
+    try:
+        block(fn.node.body)  # type: ignore[attr-defined]
+    except Found:
+        return found[0]
+    return None
+
+
+def rule_f(chk: Check, eng: Engine) -> None:
+    from fractions import Fraction
+
+    ev_cls = eng.cls(EVAL_MOD, "Evaluator")
+    fn = eng.method(ev_cls, "evaluate_individual", inherited=False)
+    bad = None
+    n = 0
+    for h in range(0, 5):
+        for r in range(0, 5):
+            for s in (0, 2):
+                if h + r + s == 0:
+                    continue
+                try:
+                    v = lin_eval(fn, h, r, s)
+                except ValueError as e:
+                    chk.bad("R02-f", eng.relfile(fn), fn.line, fn.fq, f"for (h, r, s) = ({h}, {r}, {s}) the share of a constraint class depends on a run-time condition: {e}",
+                            "whether a class of hard constraints takes part in the acceptance decision depends on something other than its being non-empty",
+                            keyparts="conditional-share")
+                    return
+                if v is None:
+                    chk.bad("R02-f", eng.relfile(fn), fn.line, fn.fq, f"for (h, r, s) = ({h}, {r}, {s}) no linear combination of the class means reaches a comparison with the acceptance threshold",
+                            "the acceptance decision is not a function of the constraint evaluation", keyparts="no-linear-guard")
+                    return
+                n += 1
+                want_pos = {"X": h > 0, "Y": r > 0, "Z": s > 0}
+                total = sum(v.coef.values(), Fraction(0)) + v.k
+                problems = []
+                if total != 1:
+                    problems.append(f"weights sum to {total}")
+                if v.k != 0:
+                    problems.append(f"constant share {v.k}")
+                for sym, need in want_pos.items():
+                    c = v.coef.get(sym, Fraction(0))
+                    if need and c <= 0:
+                        problems.append(f"class {sym} has weight {c}")
+                    if c < 0:
+                        problems.append(f"class {sym} has negative weight")
+                if problems and bad is None:
+                    bad = ((h, r, s), v, problems)
+    if bad is None:
+        chk.ok("R02-f", fn.fq, fn.line, f"for all {n} count combinations (h, r in 0..4, s in {{0, 2}}) the threshold operand is a convex combination of the class means "
+                                          "with a positive weight for every non-empty class (exact rational arithmetic)")
+        chk.ok("R02-f", fn.fq, fn.line, "e.g. (h, r, s) = (2, 3, 0): " + repr(lin_eval(fn, 2, 3, 0)))
+    else:
+        (h, r, s), v, problems = bad
+        chk.bad("R02-f", eng.relfile(fn), fn.line, fn.fq, f"for (h, r, s) = ({h}, {r}, {s}) the value compared with the threshold is {v}: {'; '.join(problems)}",
+                "the combined fitness can reach the threshold although one class of hard constraints is not fully satisfied (or cannot reach it although all are): "
+                "a tree violating a constraint is emitted as a solution", keyparts="not-convex|" + "|".join(sorted(p.split(' ')[0] for p in problems)))
+
+
 def run(chk: Check, eng: Engine) -> None:
+    chk.rule("R02-f", "in real arithmetic the value compared with the acceptance threshold is a convex combination of the per-class mean fitness values, "
+             "with positive weight for every non-empty constraint class - so it reaches 1 only if every class mean is 1", floor=2)
+    rule_f(chk, eng)
     chk.rule("R02-a", "every evaluator yield lies behind the acceptance test on a value that depends on both constraint classes; "
              "no constraint is dropped by the constructor or the evaluation loop", floor=8)
     chk.rule("R02-b", "an evaluation that raises cannot increase the normalised accumulator (evaluator level)", floor=2)
@@ -572,6 +775,9 @@ _ALG = "src/fandango/evolution/algorithm.py"
 _POP = "src/fandango/evolution/population.py"
 _API = "src/fandango/api.py"
 MUTANTS = [
+    M("total-forgets-repetition-bounds", _EV, "            len(self._hard_constraints)\n            + len(self._repetition_bounds_constraints)\n            + len(self._soft_constraints)\n", "            len(self._hard_constraints)\n            + len(self._soft_constraints)\n", "R02-f"),
+    M("hard-share-at-least-one", _EV, "            fitness = fitness * len(self._hard_constraints)\n", "            fitness = fitness * max(1, len(self._hard_constraints))\n", "R02-f"),
+    M("rep-share-added-unweighted", _EV, "            fitness += rep_fitness * len(self._repetition_bounds_constraints)\n", "            fitness += rep_fitness\n", "R02-f"),
     M("yield-before-test", _EV, "        if fitness >= self._expected_fitness and key not in self._solution_set:\n            self._solution_set.add(key)\n            yield individual\n",
       "        if key not in self._solution_set:\n            self._solution_set.add(key)\n            yield individual\n", "R02-a"),
     M("rep-bounds-only-when-hard-solved", _EV, "        if len(self._repetition_bounds_constraints) > 0:\n            # all hard",
